@@ -147,7 +147,8 @@ def _resolve_ast(expr, env):
     return _Subst(env).visit(copy.deepcopy(expr))
 
 
-_FLOAT_NAMES = ('float', 'np.float64', 'numpy.float64', 'np.double', "'float'", "'float64'", '"float"', '"float64"', 'np.float_')
+# 'float_dtype': a local holding a floating dtype (float64 for integer columns, the columns' own dtype if floating)
+_FLOAT_NAMES = ('float_dtype', 'float', 'np.float64', 'numpy.float64', 'np.double', "'float'", "'float64'", '"float"', '"float64"', 'np.float_')
 
 
 def _is_float_cast(n):
